@@ -98,3 +98,11 @@ Example C17_example :
                   MDefaults [("enforce", "baseline"); ("enforce", "restricted")]]%string) = None.
 Proof. exact C17_example_proof. Qed.
 Print Assumptions C17_example.
+
+(** ---- side conditions on the constants regenerated from the source (Gen/Constants.v) ---- *)
+From PSA Require Import Proofs.Constants_table.
+From PSA Require Gen.Constants.
+From PSA Require Import Spec.P02.
+Theorem C17_served_versions_are_source : same_set Gen.Constants.gen_served_config_versions served_versions = true.
+Proof. exact served_versions_are_source. Qed.
+Print Assumptions C17_served_versions_are_source.
